@@ -69,10 +69,11 @@ def simp(t):
 
 
 class Path:
-    def __init__(self, conds, kind, value):
+    def __init__(self, conds, kind, value, env=None):
         self.conds = conds
         self.kind = kind
         self.value = value
+        self.env = env or {}
 
     def key(self):
         return (tuple(sorted((show(c), p) for c, p in self.conds)), self.kind, show(self.value) if self.value is not None else None)
@@ -157,7 +158,7 @@ def paths(func, fold=None, roles=None, max_paths=256, inline=None, ignore_calls=
                 res += run(st.orelse, env, conds + ((g, False),) if c is None else conds)
             return res
         if isinstance(st, ast.Return):
-            out.append(Path(conds, 'return', ev(st.value, env) if st.value is not None else None))
+            out.append(Path(conds, 'return', ev(st.value, env) if st.value is not None else None, env))
             return []
         if isinstance(st, ast.Raise):
             exc = st.exc
@@ -185,7 +186,7 @@ def paths(func, fold=None, roles=None, max_paths=256, inline=None, ignore_calls=
 
     rest = run(func.body, {}, ())
     for env, conds in rest:
-        out.append(Path(conds, 'return', None))
+        out.append(Path(conds, 'return', None, env))
     return out
 
 
